@@ -570,3 +570,94 @@ func (e *Engine) concreteFromJSON(c *FuncCtx, raw json.RawMessage, t types.Type)
 	}
 	return nil, false
 }
+
+// cmdReplay: govc replay <file>.  A replay file with a concrete input runs the
+// recorded in-package test again on the current tree (go test -overlay); any
+// replay file re-generates and re-discharges the named obligation.  Exit 1 if
+// the obligation still fails.
+func cmdReplay(args []string) {
+	if len(args) < 1 {
+		fmt.Fprintln(os.Stderr, "usage: govc replay <file> [-repo dir]")
+		os.Exit(2)
+	}
+	repo := "/repo"
+	if len(args) >= 3 && args[1] == "-repo" {
+		repo = args[2]
+	}
+	b, err := os.ReadFile(args[0])
+	if err != nil {
+		fmt.Fprintln(os.Stderr, "govc replay:", err)
+		os.Exit(2)
+	}
+	var rf replayFile
+	if err := json.Unmarshal(b, &rf); err != nil {
+		fmt.Fprintln(os.Stderr, "govc replay:", err)
+		os.Exit(2)
+	}
+	fmt.Printf("property %s, obligation %s\n  %s\n", rf.Property, rf.Obligation, rf.Clause)
+	if rf.Explanation != "" {
+		fmt.Println("  recorded:", rf.Explanation)
+	}
+	if rf.TestSource != "" {
+		work, _ := os.MkdirTemp("", "govc-replay-")
+		defer os.RemoveAll(work)
+		obs, cmdline, err := runOverlayTest(repo, work, rf.TestSource)
+		fmt.Println("  concrete input:", rf.Model)
+		fmt.Println("  command:", cmdline)
+		if err != nil {
+			fmt.Println("  replay test could not be run:", err)
+		}
+		for _, l := range strings.Split(obs, "\n") {
+			if strings.HasPrefix(l, "GOVC-REPLAY") {
+				fmt.Println("  observed now:", l)
+			}
+		}
+	}
+	fn := rf.Function
+	if fn == "" {
+		if i := strings.LastIndex(rf.Obligation, "."); i > 0 {
+			fn = rf.Obligation[:i]
+		}
+	}
+	e, err := loadEngine(repo, filepath.Join(repo, "contracts_verif.go"))
+	if err != nil {
+		fmt.Fprintln(os.Stderr, "govc replay:", err)
+		os.Exit(2)
+	}
+	lemmas := e.translateFacts()
+	var obls []*Obligation
+	if fn == "$lemma" {
+		obls = lemmas
+	} else {
+		c := e.verifyFunc(fn)
+		if c.limit != "" {
+			fmt.Printf("  the obligations of %s cannot be generated on the current tree: %s\n", fn, c.limit)
+			os.Exit(1)
+		}
+		obls = c.obls
+	}
+	var sel []*Obligation
+	for _, o := range obls {
+		if o.Name == rf.Obligation {
+			sel = append(sel, o)
+		}
+	}
+	if len(sel) == 0 {
+		fmt.Printf("  no obligation named %s is generated on the current tree\n", rf.Obligation)
+		os.Exit(1)
+	}
+	work, _ := os.MkdirTemp("", "govc-replay-q-")
+	defer os.RemoveAll(work)
+	e.dischargeAll(sel, work, 10, 8)
+	bad := 0
+	for _, o := range sel {
+		if o.Status != "proved" {
+			bad++
+			fmt.Printf("  on the current tree: %s (%s, %.1fs)\n", o.Status, o.Solver, o.TimeS)
+		}
+	}
+	if bad > 0 {
+		os.Exit(1)
+	}
+	fmt.Printf("  on the current tree: discharged (%d instance(s))\n", len(sel))
+}
